@@ -585,6 +585,16 @@ Definition ex_consts_only : pkg :=
 Definition ex_token : pkg :=
   ex_pkg (s "token") (s "vt/token") [ex_anchor; mkDecl (s "LowestPrec") true (OConst true (CInt 0))].
 
+(** the sealed-interface idiom: type node interface{ isNode() }; type Expr interface{ node };
+    type Stmt interface{ node; isStmt() } -- ordinary interfaces whose method set is non-empty and entirely unexported *)
+Definition ex_sealed_meth (name : str) : meth := mkMeth name false [] false [] [] false true.
+Definition ex_sealed : pkg :=
+  ex_pkg (s "k") (s "vt/k")
+    [ex_anchor;
+     ex_iface_decl (s "Expr") [ex_sealed_meth (s "isNode")] 1 true;
+     ex_iface_decl (s "Stmt") [ex_sealed_meth (s "isNode"); ex_sealed_meth (s "isStmt")] 1 true;
+     mkDecl (s "node") false (OType false false (Some (mkIface [ex_sealed_meth (s "isNode")] 0 true)))].
+
 (** a package inside every side condition, with one declaration of each interesting shape *)
 Definition ex_good_iface : iface :=
   mkIface [ex_meth (s "Printf") [mkParam (s "format") ex_string_t; mkParam (s "args") (TSlice (TBase (s "interface{}")))] true
